@@ -1,14 +1,14 @@
 """C02 - every flowing branch obeys the documented pressure-loss law."""
 from pvmon import netgen
 from pvmon.monitors import Obs, mon_c02
-from pvmon.props.common import rng_for, run_pipeflow
+from pvmon.props.common import suite_cases, run_suite_case, rng_for, run_pipeflow
 
 MANIFEST = {'text': 'Held on every flowing section of the seeded workload: an independently written momentum law (liquid and real-gas form, 3 friction models) leaves residuals <=1e-11 bar on tight solves and reported Re/lambda/velocities/norm factors follow from reported mdot/p/T.', 'note': "Fluid property values come from the public Fluid API; interior nodes of multi-section pipes are read from the solver's node table; the law is the documented one.", 'technique': 'runtime monitoring: independent constitutive-law oracle evaluated on every branch section of every returned solution'}
 
 RULE = ("seeded random networks of every library fluid with heights, loss coefficients, 1-4 sections, ju/pi "
         "valves and heat exchangers, load scale swept over 6 decades (Reynolds ~1 .. 1e7), 3 friction models, numba "
         "on/off, tight and default tolerances; after each returned pipeflow the independent momentum law of "
-        "pvmon.physics is evaluated for every in-service pipe section, valve and heat exchanger, and reported "
+        "pvmon.physics is evaluated for every in-service pipe section, valve and heat exchanger (also on bidirectional thermal runs of hot-water meshes with reverse flow and heat loss), and reported "
         "Re, lambda, velocities, volume flow and norm factors are recomputed from reported mdot/p/T; a case is "
         "non-trivial when >= 3 flowing sections (Re >= 1e-9) were judged; distinct = case parameter hash")
 ASSUMPTIONS = ["fluid property values are taken through the public Fluid API (C19 checks those)",
@@ -22,7 +22,7 @@ REQUIRED_COUNTERS = ["law_sections_gas_turbulent", "law_sections_liquid_turbulen
                      "law_sections_liquid_laminar", "law_sections_reverse_flow", "law_sections_height_difference",
                      "law_sections_with_loss_coefficient", "multi_section_pipes", "law_valve", "law_heat_exchanger",
                      "derived_quantities_checked", "runs_nikuradse", "runs_colebrook", "runs_swamee-jain",
-                     "runs_numba", "runs_numpy"]
+                     "runs_numba", "runs_numpy", "runs_bidirectional"]
 FLUIDS = ["water", "lgas", "hgas", "hydrogen", "methane", "water", "biomethane_pure", "biomethane_treated", "air"]
 FLUIDS_UNUSED = [
           "carbondioxide", "ethane", "nitrogen", "oxygen"]
@@ -36,11 +36,24 @@ def gen_cases(tier, seed):
         out.append({"seed": seed, "i": i, "fluid": FLUIDS[i % len(FLUIDS)], "fm": FMODELS[(i // 3) % 3],
                     "numba": bool((i // 2) % 2), "feats": list(FEATS[(i // 5) % len(FEATS)]),
                     "tight": bool(i % 4 != 3)})
-    return out
+    for i in range(CONFIG[tier]["cases"] // 4):
+        out.append({"seed": seed, "i": 10 ** 6 + i, "thermal": True, "fluid": "water", "fm": FMODELS[i % 3], "numba": bool((i // 3) % 2),
+                    "feats": [], "tight": True})
+    _cases = out
+    if tier == "thorough":
+        _cases = list(_cases) + suite_cases()
+    return _cases
 
 
 def make(case):
     rng = rng_for("C02", case["seed"], case["i"])
+    if case.get("thermal"):
+        # bidirectional mode: hydraulics and temperatures are solved together, so density and viscosity belong to the
+        # reported temperatures; meshes with two feeders give reverse flow, heat loss gives a temperature change along pipes
+        spec = netgen.gen_thermal_mesh(rng, max_sections=3) if rng.random() < 0.6 else netgen.gen_heating(rng, u_max=10.0)
+        opts = {"friction_model": case["fm"], "use_numba": case["numba"], "iter": 300, "mode": "bidirectional",
+                "tol_p": 1e-10, "tol_m": 1e-10, "tol_res": 1e-9, "tol_T": 1e-9, "tolerance_colebrook": 1e-12, "max_iter_colebrook": 200}
+        return spec, opts
     qscale = float(10 ** rng.uniform(-5, 0.3)) if rng.random() < 0.5 else 1.0
     spec = netgen.gen_hydraulic(rng, fluid=case["fluid"], features=case["feats"], max_sections=4, qscale=qscale,
                                 label_scheme=str(rng.choice(["contiguous", "shuffled", "gaps"])))
@@ -51,6 +64,12 @@ def make(case):
 
 
 def run_case(case, ctx):
+    if case.get("kind") == "repo_suite":
+        obs = Obs()
+        n = run_suite_case(case, "C02", obs)
+        rec = {"nontrivial": n > 0, "sample": {"repo_suite_part": case["part"], "pipeflow_calls_observed": n}, "evaluations": max(n, 1)}
+        rec.update(obs.record())
+        return rec
     spec, opts = make(case)
     net = netgen.build(spec)
     obs = Obs()
@@ -60,6 +79,8 @@ def run_case(case, ctx):
     if outcome == "ok":
         mon_c02(net, obs, opts)
         obs.count("runs_" + case["fm"])
+        if case.get("thermal"):
+            obs.count("runs_bidirectional")
         obs.count("runs_numba" if case["numba"] else "runs_numpy")
         obs.count("runs_fluid_" + case["fluid"])
         flowing = sum(v for k, v in obs.counters.items() if k.startswith("law_sections_") and
